@@ -593,6 +593,29 @@ def check_select(ctx, P, backend):
                 babs = m_.group(1)
                 tab = [(("arg1", k, idx[2]), "CtEqual::ct_eq(%s,%d)" % (babs, k + 1)) for k in range(8)]
                 ok = True
+    if len(tab) == 0:
+        # iterator form: `for (k, entry) in GE_BASE[pos].iter().enumerate() { t.maybe_set(entry, |b|.ct_eq(k as u8 + 1)) }`
+        lps = [l for l in rules.iter_loops(fn) if len(l["sources"]) == 1 and l["sources"][0][0] == "iter" and not l["early_exits"] and "enumerate" in [c_.split("::")[-1] for c_ in l["chain"]] and not [c_ for c_ in l["chain"] if c_.split("::")[-1] not in ("into_iter", "enumerate", "iter")]]
+        c0 = [c for c in ms if c.bb in fn.loop_blocks()]
+        if len(lps) == 1 and len(c0) == 1 and c0[0].bb in lps[0]["body"]:
+            item = pred.short(fn.expr(c0[0].args[1]), fn)
+            sel = pred.short(fn.expr(c0[0].args[2]), fn)
+            m_ = re.match(r"^CtEqual::ct_eq\((.+),lin\{\+1\*(.+)\+1\}\)$", sel)
+            # the row iterated: a constant table indexed by pos whose value is GE_BASE's
+            row_ok = False
+            tname = None
+            for x in walk(lps[0]["root"]):
+                kc = fexpr.strip(x[1]) if x[0] == "index" else None
+                if kc is not None and kc[0] == "kconst" and pred.canon(x[2], fn) == "arg1":
+                    for pth, cst in P.consts.items():
+                        if pth.endswith("::GE_BASE") and mir._freeze(cst.get("v")) == kc[3]:
+                            row_ok = True
+                            tname = "GE_BASE"
+            if m_ and row_ok and item.endswith("?Some.0.1") and m_.group(2).replace("(", "").replace(")", "").replace(" as u8", "") == (item[: -len(".1")] + ".0").replace("(", "").replace(")", ""):
+                babs = m_.group(1)
+                tab = [(("arg1", k, tname), "CtEqual::ct_eq(%s,%d)" % (babs, k + 1)) for k in range(8)]
+                rows = [r for r in rows if r[1] != sel]
+                ok = True
     for k, (idx, sel) in enumerate(tab):
         m_ = re.match(r"^CtEqual::ct_eq\((.+),(\d+)\)$", sel)
         if not m_ or idx[0] != "arg1" or idx[1] != k or int(m_.group(2)) != k + 1:
